@@ -133,6 +133,12 @@ CACHE_CUT = dict(name="cache", before="if isinstance(sequence, str):", keep_trac
                          "cache_holds(cache, sequence)"})
 
 
+# right after the emptiness test, before any sort / reverse (which are excepted by C12): the test itself must not have measured
+# (and thereby exhausted) a lazily produced sequence -- it probes element 0 instead of asking for the truth value / length
+PROBED_CUT = dict(name="probed", before="section = self.section", keep_trace=True,
+                  check={'C12.emptiness_test_does_not_measure_the_sequence': "not len_called(sequence)"})
+
+
 def _inself():
     return Obj(IN, lazy=True, fields={'args': DictS(types={'prefix': 'str'})})
 
@@ -244,7 +250,7 @@ def _make_wob(variant=None, prefixed=False):
         pre_hook=_set_prefix('p') if prefixed else None,
         ensures=dict(SN), exc_ensures=dict(SN),
         uses=[RB, GI, SES, IN + ".sort_sequence", IN + ".reverse_sequence", M + ".join_unicode"],
-        cuts=[CACHE_CUT,
+        cuts=[CACHE_CUT, PROBED_CUT,
               dict(name="sorted", before="prefix = self.args.get('prefix')", check=SORTED_CHECK,
                    live=['self', 'md', 'sequence', 'cache', 'section', 'mapping', 'no_push_item'],
                    abstract={'sequence': Seq(kind='any')},
@@ -323,7 +329,7 @@ def _make_wb(variant=None, prefixed=False):
         ensures=dict(SN), exc_ensures=dict(SN), lazy_len=True,
         uses=[RB, GI, SES, IN + ".sort_sequence", IN + ".reverse_sequence", M + ".join_unicode",
               'DocumentTemplate.DT_In.int_param', OPT],
-        cuts=[CACHE_CUT,
+        cuts=[CACHE_CUT, PROBED_CUT,
               dict(name="sorted", before="next = previous = 0", check=SORTED_CHECK,
                    abstract={'sequence': Seq(kind='any', lazy=True)},
                    assume={'nonempty': "len_of(sequence) >= 1"},
